@@ -11,6 +11,7 @@ CONSTANTS
   Catalogue <- CatBig
   MaxHist = 9
   DecoderScope = "perIteration"
+  EqKinds <- KindsPlain
   CopyVariant = "copy"
 CONSTRAINT ExportC
 INVARIANT PerIterationDecode
